@@ -75,4 +75,17 @@ theorem c17_symmetry (n o l : V3) (hn : V3.dot n n ≠ 0) :
 theorem c17_translation_at (l0 f0 : V3) : translationLink l0 f0 l0 = f0 := by
   apply V3.ext' <;> c17_unfold <;> ring
 
+/-- the turn by the identity quaternion `(w, 0·a)`, `w ≠ 0` not even needed: a `RotationLink` built from the current
+    positions puts the follower where it is as long as the leader has not been turned -/
+theorem c17_rotation_identity (w : Rat) (a o f0 : V3) : rotationLink w (V3.smul 0 a) o f0 = f0 := by
+  apply V3.ext' <;> c17_unfold <;> ring
+
+/-- a `SymmetryLink` puts the follower where it is when the follower is the leader's mirror image, or the leader the
+    follower's (mirroring is an involution) -/
+theorem c17_symmetry_at (n o l0 f0 : V3)
+    (h : f0 = symmetryLink n o l0 ∨ (V3.dot n n ≠ 0 ∧ l0 = symmetryLink n o f0)) : symmetryLink n o l0 = f0 := by
+  rcases h with h | ⟨hn, h⟩
+  · exact h.symm
+  · rw [h]; exact (T_C09_point_mirror_aux n o f0 hn).1
+
 end CBV.C13
